@@ -196,6 +196,9 @@ func (r *Runner) builtin(ctx context.Context, pos syntax.Pos, name string, args 
 		default:
 			return failf(2, "usage: shift [n]\n")
 		}
+		if n < 0 {
+			return failf(1, "shift: %d: shift count out of range\n", n)
+		}
 		if n >= len(r.Params) {
 			r.Params = nil
 		} else {
